@@ -278,7 +278,7 @@ def v3_map_uses(ctx) -> None:
                       "_children_param_maps, which has no entry for the flipped child) with _parent_param_map(map_i(param))", construct="Complement.get_terms maps")
     # products
     for cname in ("CartesianProduct", "Quotient"):
-        m = P.need_method(cname, "_new_param", own=True)
+        m = P.need_method(cname, "_new_param")
         f = m.node
         ctx.analysed(m)
         g = PT.find_all(f, "(_M_pm(_M_p) for _M_pm, _M_p in zip(self._children_param_maps, children_params))")
